@@ -227,6 +227,99 @@ def check_replace(ctx, db):
                     ctx.check(order.index('ref->type') < order.index('ref->%s' % MEMBER[new_k]), 'R-TAGUNION', key + '/tag-then-member', top.loc(), 'the tag is stored before the member of the new kind')
 
 
+def rename_model(db, by_name, missing=False):
+    """Library::rename_cell interpreted (sa/minieval) on a library of three cells - `top`, `old`, `oldx` - whose references are
+    by-name (`old`, `oldx`, `ol`), by-pointer (to the renamed cell: its name field is the other member of the union) and raw.
+    strlen / strcmp / reallocate / memcpy / get_cell are answered by the harness; comparing the name of a reference that is not
+    by-name is reported. Returns the list of problems."""
+    from .. import minieval as M
+    fs = db.fn('gdstk::Library::rename_cell', all=True)
+    f = next((x for x in fs if 'Cell' in x.params[0]['t']), None)
+    g = next((x for x in fs if x is not f), None)
+    en = {c['n']: c['v'] for c in db.enum('gdstk::ReferenceType')['consts']} if 'consts' in db.enum('gdstk::ReferenceType') else None
+    if en is None:
+        e_ = db.enum('gdstk::ReferenceType')
+        en = {c.get('n'): c.get('v') for c in e_.get('items', e_.get('enumerators', []))}
+    NEW = 'fresh!'
+
+    def nref(nm):
+        return M.Obj(type=en['Name'], name=nm, kind='name')
+
+    def arr(lst):
+        return M.Obj(items=M.Ptr(lst, 0) if lst else 0, count=len(lst), capacity=len(lst))
+    renamed = M.Obj(name='old', reference_array=arr([]))
+    r_top = [nref('old'), nref('oldx'), nref('ol'), M.Obj(type=en['Cell'], cell=renamed, kind='cell'), M.Obj(type=en['RawCell'], rawcell=M.Obj(name='old'), kind='raw'), nref('old')]
+    r_x = [nref('old')]
+    cells = [M.Obj(name='top', reference_array=arr(r_top)), renamed, M.Obj(name='oldx', reference_array=arr(r_x))]
+    this = M.Obj(cell_array=arr(cells), rawcell_array=arr([]))
+    problems = []
+    ref = [None]
+
+    def text(v):
+        if isinstance(v, M.Obj) and v.get('buf'):
+            return v.get('text')
+        return v if isinstance(v, str) else None
+
+    def extra(callee, args, node):
+        c = callee or ''
+        short = c.split('::')[-1]
+        if short == 'strlen':
+            t = text(args[0])
+            if t is None:
+                problems.append('strlen of something that is not a string at %s' % node.loc())
+                return (0,)
+            return (len(t),)
+        if short == 'strcmp':
+            a, b = text(args[0]), text(args[1])
+            if a is None or b is None:
+                problems.append('a reference that is not by-name has its name compared at %s (the field is the other member of the union)' % node.loc())
+                return (1,)
+            return ((a > b) - (a < b),)
+        if short == 'reallocate':
+            return (M.Obj(buf=True, size=int(args[1]), text=None, was=text(args[0])),)
+        if short == 'memcpy':
+            d, src, n = args[0], text(args[1]), int(args[2])
+            if not (isinstance(d, M.Obj) and d.get('buf')) or src is None:
+                problems.append('memcpy into something that was not allocated here at %s' % node.loc())
+                return (args[0],)
+            if n > d['size']:
+                problems.append('memcpy of %d bytes into %d at %s' % (n, d['size'], node.loc()))
+            d['text'] = src if n == len(src) + 1 else ('%s<unterminated>' % src[:n])
+            return (args[0],)
+        if short == 'copy_string':
+            t = text(args[0])
+            return (M.Obj(buf=True, size=len(t) + 1, text=t),)
+        if short == 'get_cell':
+            want = text(args[0])
+            return (next((c_ for c_ in cells if text(c_['name']) == want), 0),)
+        if short == 'free_allocation':
+            return (None,)
+        return None
+    mi = M.Mini(db, hook=M.array_hook(ref, extra), budget=100000)
+    mi.obj_store = True
+    ref[0] = mi
+    if by_name:
+        env = {'this': this, g.params[0]['n']: ('nowhere' if missing else 'old'), g.params[1]['n']: NEW}
+        fn = g
+    else:
+        env = {'this': this, f.params[0]['n']: renamed, f.params[1]['n']: NEW}
+        fn = f
+    try:
+        mi.run(fn.body, env)
+    except M.Return:
+        pass
+    except M.OutOfBounds as ex:
+        problems.append(str(ex))
+    want_new = None if missing else NEW
+    got = [text(x.get('name')) if x.get('kind') == 'name' else x.get('kind') for x in r_top] + [text(x['name']) for x in r_x] + [text(c_['name']) for c_ in cells]
+    exp = [want_new or 'old', 'oldx', 'ol', 'cell', 'raw', want_new or 'old', want_new or 'old', 'top', want_new or 'old', 'oldx']
+    if got != exp:
+        problems.append('after rename_cell(%s, "%s") the by-name references / cell names read %s, expected %s' % ('"old"' if by_name else 'cell `old`', NEW, got, exp))
+    if r_top[3].get('cell') is not renamed or 'name' in r_top[3]:
+        problems.append('the by-pointer reference was rewritten')
+    return problems
+
+
 def check_rename(ctx, db):
     fs = db.fn('gdstk::Library::rename_cell', all=True)
     byp = {f.params[0]['t']: f for f in fs}
@@ -237,36 +330,16 @@ def check_rename(ctx, db):
     ctx.touch(f)
     ctx.touch(g)
     label = 'rename_cell(Cell*)'
-    inner = ref_loops(ctx, f, label)
-    ctx.check(size_decl_ok(f), 'R-CONST', label + '/size', f.loc(), 'size = 1 + strlen(new_name)')
-    iff = next((s for s in (inner.child('body').walk() if inner is not None else []) if s.k == 'IfStmt'), None)
-    cond = norm(iff.child('cond').text()) if iff is not None else ''
-    cn = _strip_casts(iff.child('cond')) if iff is not None else None
-    okc = False
-    if cn is not None and cn.k == 'BinaryOperator' and cn.op == '&&':
-        tl = _strip_casts(cn.child('lhs'))
-        if tl.k == 'BinaryOperator' and tl.op == '==':
-            a_, b_ = _strip_casts(tl.child('lhs')), _strip_casts(tl.child('rhs'))
-            tagm = next((z for z in (a_, b_) if z.k == 'MemberExpr' and z.n == 'type' and z.arrow), None)
-            enum = next((z for z in (a_, b_) if z.k == 'DeclRefExpr' and z.dk == 'enum' and z.n == 'Name'), None)
-            okc = tagm is not None and enum is not None and strcmp_old(f, cn.child('rhs'), ('name',))
-    okw, why = name_rewrite_ok(iff.child('then').stmts(), None) if iff is not None else (False, 'no guarded rewrite')
-    ctx.check(okc and okw, 'R-TABLE', label + '/by-name-references', f.loc(), 'by-name references equal (full strcmp) to the old name are rewritten to the new name',
-              'rename_cell: condition `%s` (expected type == Name && strcmp(ref->name, old_name) == 0) %s' % (cond, why))
-    # the cell's own name is rewritten after the loops; the old name compared in the loops aliases cell->name (first parameter)
-    p0 = 'v%d:%s' % (f.params[0]['d'], f.params[0]['n'])
-    tail = [s for s in f.body.c if s is not None and (inner is None or s.pos > inner.pos)]
-    re_ = next((x for s in tail for x in s.walk() if is_assign(x) and lvalue_key(_strip_casts(x.child('lhs'))) == p0 + '->name'), None)
-    mc = next((x for s in tail for x in s.walk() if x.k == 'CallExpr' and x.callee == 'memcpy'), None)
-    ok = re_ is not None and mc is not None and lvalue_key(_strip_casts(mc.args[0])) == p0 + '->name' and origin_params(f, mc.args[1]) == {len(f.params) - 1}
-    if ok:
-        ra = next((c for c in re_.child('rhs').walk() if c.k == 'CallExpr' and c.callee == 'gdstk::reallocate'), None)
-        ok = ra is not None and norm(_strip_casts(ra.args[1]).text()) == norm(_strip_casts(mc.args[2]).text())
-    ctx.check(ok, 'R-PAIRCALL', label + '/cell-renamed-last', f.loc(), 'the cell\'s own name is rewritten after all references were compared against it (old_name aliases cell->name)')
-    # name overload: looks the cell up and delegates only when found
-    t = norm(clone.canon(g.body, g, ren=clone.Renamer(g, params_by_name=True)))
-    ok = 'this->get_cell($old_name)' in t and 'if (' in t and 'this->rename_cell(v0, $new_name)' in t
-    ctx.check(ok, 'R-SHAPE', 'rename_cell(name)/delegates', g.loc(), 'rename by name resolves the cell and delegates when it exists')
+    # decided by interpretation (rename_model): every by-name reference whose name equals the old name in full - and nothing else -
+    # reads the new name afterwards, the cell itself is renamed, by-pointer and raw references are left alone and never compared as
+    # strings, the copy is of strlen(new) + 1 bytes into a block of that size; by name: the cell is looked up and nothing happens
+    # when it does not exist
+    for key, kw, fn_, what in ((label + '/by-name-references', dict(by_name=False), f, 'by-name references equal (full strcmp) to the old name are rewritten to the new name, the cell is renamed, nothing else changes'),
+                               ('rename_cell(name)/delegates', dict(by_name=True), g, 'rename by name resolves the cell and renames it'),
+                               ('rename_cell(name)/missing', dict(by_name=True, missing=True), g, 'rename by name of a cell that does not exist changes nothing')):
+        pr = rename_model(db, **kw)
+        ctx.explored['valuations'] += 1
+        ctx.check(not pr, 'R-MODEL.rename', key, fn_.loc(), what, '; '.join(pr[:2]))
 
 
 def check_dependencies(ctx, db):
